@@ -68,6 +68,10 @@ def gen(ctx):
                   "criteria": G.labels(rng, G.LABEL_POOL_CRIT, n), "family": "dyadic"}
             if rng.random() < 0.6:
                 spec = {"name": "ELECTRE2", "p0": 0.625, "p1": 0.5, "p2": 0.25, "q0": 0.875, "q1": 0.75}
+        if fam == "dyadic" and rng.random() < 0.15:
+            # the same problem in very small / very large units (an exact power of two): concordance and discordance are scale free
+            k = 2.0 ** rng.choice([-50, -44, 40])
+            dm = dict(dm, matrix=[[x * k for x in row] for row in dm["matrix"]], units=k)
         if rng.random() < 0.1:
             # the same kind of problem stored as narrow / unsigned integers: differences must not be taken in that dtype
             dm = M.narrow_int_variant(rng, dm)
